@@ -1,20 +1,42 @@
 #!/bin/bash
-# usage: seedconfirm.sh <ID> <demo-pkg-dir> <run-regex>
-# Confirms a seeded change in its scratch worktree /tmp/seed-<ID> (patch applied there):
+# usage: [SEEDPREFIX=seed2] seedconfirm.sh <ID> [<demo-pkg-dir> [<run-regex>]]
+# Confirms a seeded change in its scratch worktree /tmp/<prefix>-<ID> (patch applied there):
 #  demo FAILS with the change, PASSES without it, build ok, whole pinned suite passes with the change.
+# Package directory and -run regex are derived from the demonstration file(s) when not given.
 set -u
-ID=$1; PKG=$2; RX=$3
+ID=$1
 P=${SEEDPREFIX:-seed}; W=/tmp/$P-$ID; O=/tmp/$P-$ID-out
 export GOFLAGS=-mod=mod GOPROXY=off
 cd $W || exit 2
-DEMO=$(ls $O/*_test.go | head -1)
-cp $DEMO $W/$PKG/
-go build ./... && go build -tags verif ./... || { echo "BUILD FAIL"; exit 1; }
-go test -vet=off -count=1 -run "$RX" ./$PKG/ > $O/demo_with.log 2>&1; w=$?
-git stash -q -- $(git diff --name-only) 
-go test -vet=off -count=1 -run "$RX" ./$PKG/ > $O/demo_without.log 2>&1; wo=$?
-git stash pop -q
-rm -f $W/$PKG/$(basename $DEMO)
+# start from the delivered patch, whatever state the worktree was left in
+git checkout -q -- . && git clean -fdq && git apply $O/patch.diff || { echo "$ID PATCH DOES NOT APPLY"; exit 1; }
+DEMOS=$(ls $O/*_test.go)
+pkgdir() { # package clause -> directory
+  local pk=$(grep -m1 '^package ' $1 | awk '{print $2}'); pk=${pk%_test}
+  case $pk in
+    handler) echo pkg/handler;; session) echo pkg/session;; client) echo pkg/openid/client;; config) echo pkg/config;;
+    server) echo pkg/server;; url) echo pkg/url;; openid) echo pkg/openid;; cookie) echo pkg/cookie;; crypto) echo internal/crypto;;
+    ingress) echo pkg/ingress;; middleware) echo pkg/middleware;; router) echo pkg/router;; autologin) echo pkg/handler/autologin;;
+    provider) echo pkg/openid/provider;; acr) echo pkg/openid/acr;; http) echo internal/http;; retry) echo pkg/retry;; main) echo cmd/wonderwall;;
+    *) grep -rl "^package $pk\$" --include=*.go . | head -1 | xargs dirname | sed 's#^\./##';;
+  esac
+}
+w=0; wo=0
+go build ./... && go build -tags verif ./... || { echo "$ID BUILD FAIL"; exit 1; }
+for D in $DEMOS; do
+  TAGS=""; if grep -q '^//go:build verif' $D; then TAGS="-tags verif"; fi
+  PKG=${2:-$(pkgdir $D)}
+  RX=${3:-$(grep -ho 'func Test[A-Za-z0-9_]*' $D | sed 's/func //' | paste -sd'|')}
+  for E in $DEMOS; do [ "$(pkgdir $E)" = "$PKG" ] && cp $E $W/$PKG/; done
+  go test $TAGS -vet=off -count=1 -run "^($RX)\$" ./$PKG/ > $O/demo_with.$(basename $D).log 2>&1 || w=1
+  # (not git stash: the stash is shared between all worktrees of a repository)
+  git diff > $O/.cur.diff
+  git apply -R $O/.cur.diff
+  go test $TAGS -vet=off -count=1 -run "^($RX)\$" ./$PKG/ > $O/demo_without.$(basename $D).log 2>&1 || wo=1
+  git apply $O/.cur.diff
+  for E in $DEMOS; do rm -f $W/$PKG/$(basename $E); done
+  echo "   demo $(basename $D) in $PKG"
+done
 go test -vet=off -count=1 ./... > $O/suite_with.log 2>&1; s=$?
 echo "$ID demo_with_exit=$w (want 1) demo_without_exit=$wo (want 0) suite_with_exit=$s (want 0)"
 git status --short | head
